@@ -22,10 +22,79 @@ type bundleFingerprint struct {
 	manifest string
 	checksum string
 	listing  string
+	// lookups: the answers of the bundle's lookups for everything the world mentions, local paths relative
+	// to the target directory
+	lookups string
 }
 
-func fingerprint(target string, b *sourcebundle.Bundle) bundleFingerprint {
+// lookupAnswers: what the bundle answers for every registry package and listed version of the world
+// (location for two caller sub-paths, recorded source address, deprecation note, the version list) and for
+// every remote package, local paths taken relative to target. A function of the bundle's content only.
+func lookupAnswers(b *sourcebundle.Bundle, target string, w *BWorld) string {
+	if b == nil {
+		return ""
+	}
+	rel := func(lp string, err error) string {
+		if err != nil {
+			return "-"
+		}
+		r, rerr := filepath.Rel(target, lp)
+		if rerr != nil {
+			return lp
+		}
+		return r
+	}
+	var out []string
+	for _, rg := range w.Regs {
+		pkg := mustRegistry(rg.Addr, "").Package()
+		var listed []string
+		for _, v := range b.RegistryPackageVersions(pkg) {
+			listed = append(listed, v.String())
+		}
+		sort.Strings(listed)
+		out = append(out, fmt.Sprintf("RegistryPackageVersions(%s) = [%s]", rg.Addr, strings.Join(listed, " ")))
+		for _, bv := range rg.Versions {
+			v := versions.MustParseVersion(bv.Ver)
+			for _, sub := range []string{"", "k"} {
+				lp, err := b.LocalPathForRegistrySource(mustRegistry(rg.Addr, sub), v)
+				out = append(out, fmt.Sprintf("LocalPathForRegistrySource(%s, %s) = %s", mustRegistry(rg.Addr, sub), bv.Ver, rel(lp, err)))
+			}
+			if src, ok := b.RegistryPackageSourceAddr(pkg, v); ok {
+				out = append(out, fmt.Sprintf("RegistryPackageSourceAddr(%s, %s) = %s", rg.Addr, bv.Ver, src))
+			} else {
+				out = append(out, fmt.Sprintf("RegistryPackageSourceAddr(%s, %s) = -", rg.Addr, bv.Ver))
+			}
+			if d := b.RegistryPackageVersionDeprecation(pkg, v); d != nil {
+				out = append(out, fmt.Sprintf("RegistryPackageVersionDeprecation(%s, %s) = (%q, %q)", rg.Addr, bv.Ver, d.Reason, d.Link))
+			} else {
+				out = append(out, fmt.Sprintf("RegistryPackageVersionDeprecation(%s, %s) = -", rg.Addr, bv.Ver))
+			}
+		}
+	}
+	for _, p := range w.Pkgs {
+		lp, err := b.LocalPathForRemoteSource(w.remote(p.Addr, "m"))
+		out = append(out, fmt.Sprintf("LocalPathForRemoteSource(%s) = %s", w.remote(p.Addr, "m"), rel(lp, err)))
+	}
+	return strings.Join(out, "\n")
+}
+
+// firstLookupDiff: the first lookup two renderings of lookupAnswers answer differently
+func firstLookupDiff(a, b string) string {
+	al, bl := strings.Split(a, "\n"), strings.Split(b, "\n")
+	for i := range al {
+		if i >= len(bl) {
+			return al[i] + " / (missing)"
+		}
+		if al[i] != bl[i] {
+			return al[i] + " / " + bl[i]
+		}
+	}
+	return ""
+}
+
+func fingerprint(target string, b *sourcebundle.Bundle, w *BWorld) bundleFingerprint {
 	var fp bundleFingerprint
+	fp.lookups = lookupAnswers(b, target, w)
 	m, _ := os.ReadFile(filepath.Join(target, "terraform-sources.json"))
 	fp.manifest = string(m)
 	if b != nil {
@@ -126,7 +195,7 @@ func runConcurrent(w *BWorld, ops []BOp, target string, env *bEnv) (*sourcebundl
 
 func init() {
 	lanes["builder-order"] = func(cfg *Config, rep *Report) {
-		rep.Rule = "error-free scripted worlds with 2..5 Add calls: every permutation of the calls (exhaustive up to 4, 12 samples beyond) and one concurrent run (all Add calls at once on one builder, yielding callbacks); fingerprint = manifest bytes + ChecksumV1 + recursive directory listing; non-trivial = at least two distinct Add calls; distinct by (world, permutation)"
+		rep.Rule = "error-free scripted worlds with 2..5 Add calls: every permutation of the calls (exhaustive up to 4, 12 samples beyond) and one concurrent run (all Add calls at once on one builder, yielding callbacks); fingerprint = manifest bytes + ChecksumV1 + recursive directory listing + the answers of all registry / remote lookups relative to the target; the first build's directory is opened five more times and every opening must give the same lookup answers; a fixed corpus of worlds in which two versions differing in build metadata only are both resolved; non-trivial = at least two distinct Add calls; distinct by (world, permutation)"
 		r := NewRng(cfg.Seed)
 		var reqs, impl []string
 		var human []interface{}
@@ -152,19 +221,37 @@ func init() {
 					ok = false
 					break
 				}
-				fp := fingerprint(target, run.bundle)
+				fp := fingerprint(target, run.bundle, w)
 				reqs = append(reqs, "builder "+w.Encode()+" "+encOps(w, pops))
 				impl = append(impl, run.canon(w))
 				human = append(human, map[string]interface{}{"world": w, "ops": pops})
 				rep.Case(fmt.Sprintf("%p|%v", c, perm), true, map[string]interface{}{"ops": pops, "perm": perm})
 				if pi == 0 {
 					base = fp
+					// the same directory opened five more times: every opening gives the same lookup answers
+					// as the bundle Close returned (seed C13-g: the winner among entries sharing a table key
+					// decided by map iteration order)
+					for k := 0; k < 5; k++ {
+						bk, err := sourcebundle.OpenDir(target)
+						if err != nil {
+							rep.AddOracle(OracleFailure{Property: "C13", Lane: "builder-order", What: fmt.Sprintf("the finished bundle cannot be opened again: %v", err), Input: map[string]interface{}{"world": w, "ops": ops, "perm": perm}, ReqIdx: len(reqs)})
+							break
+						}
+						if la := lookupAnswers(bk, target, w); la != fp.lookups {
+							rep.AddOracle(OracleFailure{Property: "C13", Lane: "builder-order", What: fmt.Sprintf("lookup answers differ between two openings of the same finished bundle directory (the bundle returned by Close / OpenDir call %d): %s", k+1, firstLookupDiff(fp.lookups, la)), Input: map[string]interface{}{"world": w, "ops": ops, "perm": perm}, ReqIdx: len(reqs)})
+							break
+						}
+					}
+					rep.Count("repeated-opendir")
 				} else if fp != base {
 					what := "manifest bytes"
 					if fp.manifest == base.manifest {
 						what = "checksum"
 						if fp.checksum == base.checksum {
 							what = "directory listing"
+							if fp.listing == base.listing {
+								what = "lookup answers (" + firstLookupDiff(base.lookups, fp.lookups) + ")"
+							}
 						}
 					}
 					rep.AddOracle(OracleFailure{Property: "C13", Lane: "builder-order", What: fmt.Sprintf("%s differ between Add orders %v and %v", what, perms[0], perm), Input: map[string]interface{}{"world": w, "ops": ops, "perm": perm}, ReqIdx: len(reqs)})
@@ -187,7 +274,7 @@ func init() {
 				runO := runBuild(w, ops, odd, envO)
 				if runO.timeout || hasErrorDiag(runO.results) || runO.bundle == nil {
 					rep.AddOracle(OracleFailure{Property: "C13", Lane: "builder-order", What: "a build that succeeds elsewhere fails in a target directory below .terraform/.git/logs", Input: c})
-				} else if fp := fingerprint(odd, runO.bundle); fp != base {
+				} else if fp := fingerprint(odd, runO.bundle, w); fp != base {
 					rep.AddOracle(OracleFailure{Property: "C13", Lane: "builder-order", What: "the bundle differs when it is built in a target directory below .terraform/.git/logs", Input: c})
 				}
 				rep.Count("odd-target-runs")
@@ -201,7 +288,7 @@ func init() {
 			if hadErr || err != nil || b == nil {
 				rep.AddOracle(OracleFailure{Property: "C13", Lane: "builder-order", What: fmt.Sprintf("concurrent Add calls fail on a world whose sequential builds succeed (err=%v)", err), Input: c})
 			} else {
-				if fp := fingerprint(target, b); fp != base {
+				if fp := fingerprint(target, b, w); fp != base {
 					rep.AddOracle(OracleFailure{Property: "C13", Lane: "builder-order", What: "bundle built by concurrent Add calls differs from the sequential one", Input: c})
 				}
 				for k, n := range env.analysed {
@@ -242,7 +329,16 @@ func init() {
 			rep.EndReplay(reqs[s0:]...)
 			done = 0
 		}
-		for tries := 0; done < cfg.N && tries < cfg.N*20; tries++ {
+		// the fixed corpus (worlds in which two versions differing in build metadata only are both resolved)
+		// runs with every seed, in addition to the generated worlds
+		nCorpus := 0
+		for _, c := range builderCorpus() {
+			if runWorld(c.World, c.Ops, NewRng(cfg.Seed^0xc0)) {
+				nCorpus++
+				rep.Count("corpus-worlds")
+			}
+		}
+		for tries := 0; done < cfg.N+nCorpus && tries < cfg.N*20; tries++ {
 			w, ops := genBWorld(r, false)
 			if len(ops) < 2 {
 				continue
